@@ -95,6 +95,18 @@ fn default_ctx() -> (u64, RoundingMode) {
 
 /// the four clauses on one result; returns the result as Dec
 fn judge(ctx: &mut Ctx, case: &Case, what: &str, r: Result<BigDecimal, String>, x: &Dec, p: u64) -> Option<Dec> {
+    let v0 = ctx.total_violations();
+    let g = judge_inner(ctx, case, what, r, x, p);
+    if let Some(g) = &g {
+        if what == "inverse_with_context" && ctx.want_event() && x.tok().len() < 400 && x.s.abs() < 1500 {
+            let held = ctx.total_violations() == v0;
+            ctx.log("inverse", &[x.tok()], serde_json::json!({"p": p}), g.tok(), held);
+        }
+    }
+    g
+}
+
+fn judge_inner(ctx: &mut Ctx, case: &Case, what: &str, r: Result<BigDecimal, String>, x: &Dec, p: u64) -> Option<Dec> {
     match r {
         Err(pn) => {
             if pn.contains("verif-loop-cap") {
